@@ -308,6 +308,8 @@ def run(ctx):
         if not want <= tags:
             ctx.violation("oracle", c.replay_obj(), "allOf: the generated types lack fields for %s" % sorted(want - tags))
             nv += 1
+    from vlib import regress
+    regress.search(ctx, {"C11"})          # the shape-agnostic search step (DESIGN.md 12.8)
     replay_findings(ctx)
     ctx.cov["rule"] = ("allOf: 1-4 object branches x inline / by reference / mixed x disjoint or overlapping property sets (a shared integer property constrained differently by each "
                        "branch) x as a property or as a definition; documents: all branches satisfied, each branch's required key removed, each branch's constraints violated, optional "
